@@ -25,7 +25,7 @@ _N = {}         # number of line events per (scenario, family): measured once
 SCENARIOS = ['main-edit-with-dir-override', 'dir-edit',
              'defaults-with-permissive-default-rule', 'deprecated-defaults',
              'deprecated-defaults-both-names', 'alias-edit',
-             'dir-file-overrides-two']
+             'dir-file-overrides-two', 'dir-edit-removes-override']
 
 
 def _setup(env, scenario):
@@ -113,6 +113,22 @@ def _setup(env, scenario):
                                       'other': 'role:m2'})
         return defaults, ['v', 'u', 'c:z', 'other'], edit, \
             ['member', 'audit', 'm1', 'm2']
+    if scenario == 'dir-edit-removes-override':
+        # the directory file drops one override (the name falls back to its
+        # registered default) and changes another; c:z combines the two.
+        # (No credentials hold 'member': under the old policy c:z never
+        # allows, so the half-rebuilt stores of the known finding -- where
+        # 's' is undefined for a moment -- decide like the old policy.)
+        env.write('policy.yaml', {'c:z': 'rule:s and rule:pm',
+                                  'other': 'role:x'})
+        env.write('policy.d/over.yaml', {'s': 'role:ops',
+                                         'pm': 'role:member'})
+        defaults = [policy.RuleDefault('s', 'role:admin'),
+                    policy.RuleDefault('pm', 'role:nobody')]
+
+        def edit():
+            env.write('policy.d/over.yaml', {'pm': 'role:owner'})
+        return defaults, ['s', 'pm', 'c:z'], edit, ['ops', 'owner', 'admin']
     raise ValueError(scenario)
 
 
@@ -248,7 +264,8 @@ def cubes_schedule(tier, seed):
             ('deprecated-defaults', ['new']),
             ('deprecated-defaults-both-names', ['new']),
             ('alias-edit', ['a:x', 'c:z']),
-            ('dir-file-overrides-two', ['c:z'])]
+            ('dir-file-overrides-two', ['c:z']),
+            ('dir-edit-removes-override', ['c:z'])]
     if tier != 'quick':
         plan = [('main-edit-with-dir-override', ['a:x', 'b:y', 'c:z', 'e:w']),
                 ('dir-edit', ['a:x', 'b:y', 'e:w']),
@@ -257,7 +274,8 @@ def cubes_schedule(tier, seed):
                 ('deprecated-defaults', ['new', 'keep', 'other']),
                 ('deprecated-defaults-both-names', ['new', 'keep']),
                 ('alias-edit', ['a:x', 'b:y', 'c:z']),
-                ('dir-file-overrides-two', ['c:z', 'other'])]
+                ('dir-file-overrides-two', ['c:z', 'other']),
+                ('dir-edit-removes-override', ['c:z'])]
     fams = ['writer-paused', 'reader-paused', 'decider-first']
     for sc, probes in plan:
         for fam in fams:
